@@ -15,6 +15,7 @@ TOL_RHS = 1e-12       # measured worst on the unchanged tree ~3e-16 (normalised 
 TOL_EXPL = 1e-12      # solve, explicit integrators (measured 2e-16)
 TOL_IMPL = 1e-6       # solve, implicit integrators: x max(1, CFL)
 _count = {"rhs": 0}
+_capture = {"on": False, "log": []}      # boundary fluxes + time of every rhs call made during an observed explicit-Euler solve
 
 
 def _bcclass(tL, tR):
@@ -30,6 +31,8 @@ def monitor_rhs1d(args, kwargs, result, tok):
     ctx = CTX
     disc = args[0]
     _count["rhs"] += 1
+    if _capture["on"]:
+        _capture["log"].append((disc.field.time, [float(np.asarray(disc.flux[i])[0]) for i in range(disc.neq)], [float(np.asarray(disc.flux[i])[disc.nelem]) for i in range(disc.neq)]))
     if not probes.take("rhs"):
         return
     n = disc.nelem
@@ -105,7 +108,7 @@ def setup(ctx):
     CTX = ctx
     probes.hook(md.fvm1d, "rhs", after=monitor_rhs1d)
     probes.hook(md.fvm2dcart, "rhs", after=monitor_rhs2d)
-    ctx.require("rhs1d:per", "rhs1d:sym", "rhs1d:open", "rhs2d:per", "rhs2d:mixed", "solve:explicit", "solve:implicit")
+    ctx.require("rhs1d:per", "rhs1d:sym", "rhs1d:open", "rhs2d:per", "rhs2d:mixed", "solve:explicit", "solve:implicit", "solve:open-boundaries")
 
 
 def teardown(ctx):
@@ -273,6 +276,11 @@ def solve1d(ctx, rng, idx):
     tol = TOL_IMPL * max(1.0, cfl) if implicit else TOL_EXPL
     for i in keep:
         scale = max(A0[i], A1[i]) * max(1, nstep)
+        if implicit and i == 1 and s.model.equation in ("euler", "shallowwater"):
+            # implicit updates are conservative only to the accuracy of the code's finite-difference Jacobian, whose momentum
+            # column is perturbed by sqrt(eps)*mean|rho u|: at low Mach number its noise is relative to rho*c, not to |rho u|
+            cc = np.sqrt(s.model.gamma * s.prim[2] / s.prim[0]) if s.model.equation == "euler" else np.sqrt(s.model.g * s.prim[0])
+            scale = max(scale, float(np.sum(s.mesh.vol() * s.prim[0] * cc)) * max(1, nstep))
         if scale == 0:
             continue
         ctx.close("solve:explicit" if not implicit else "solve:implicit", (I1[i] - I0[i]) / scale, tol,
@@ -304,3 +312,31 @@ def solve2d(ctx, rng, idx):
         ctx.close("solve:explicit", np.max(np.abs(np.asarray(I1[i]) - np.asarray(I0[i]))) / scale, TOL_EXPL,
                   "solve2d/explicit/integral-drift", {"eq": i, "integrator": iname}, cls="solve2d")
     ctx.nontrivial("solve2d", iname, cfl, nstep, desc)
+
+
+@group(quick=120, thorough=4000)
+def solve1d_open(ctx, rng, idx):
+    """explicit Euler with open boundaries: the integral changes exactly by dt x (boundary fluxes recorded at every rhs call)"""
+    iname = ["explicit", "forwardeuler"][idx % 2]
+    s = gen.scenario1d(rng, bc="open", nmax=16, fluxes=gen.UPWIND_FLUXES, mach_max=1.5, recons=["extrapol1", "muscl_minmod", "muscl_vanleer", "extrapol2", "extrapol3"])
+    cfl = float(rng.uniform(0.05, 0.4))
+    nstep = int(rng.integers(1, 9))
+    ctx.describe(integrator=iname, cfl=cfl, nstep=nstep, **s.desc())
+    I0 = _integral(s.mesh, s.field, s.model.neq)
+    _capture["on"], _capture["log"] = True, []
+    try:
+        res = gen.integ(iname)(s.mesh, s.disc).solve(s.field, cfl, stop={"maxit": nstep})
+    finally:
+        _capture["on"] = False
+    fend = res[-1]
+    log = _capture["log"]
+    if len(log) != nstep or not all(np.all(np.isfinite(q)) for q in fend.data):
+        ctx.skip("solve1d_open:nonfinite-or-extra-rhs")
+        return
+    times = [l[0] for l in log] + [fend.time]
+    I1 = _integral(s.mesh, fend, s.model.neq)
+    for i in range(s.model.neq):
+        exp = I0[i] + sum((times[k + 1] - times[k]) * (log[k][1][i] - log[k][2][i]) for k in range(nstep))
+        scale = np.sum(s.mesh.vol() * np.abs(s.field.data[i])) + sum((times[k + 1] - times[k]) * (abs(log[k][1][i]) + abs(log[k][2][i])) for k in range(nstep)) + 1e-300
+        ctx.close("solve:open-boundaries", (I1[i] - exp) / scale, 1e-12, "solve1d/open/integral-not-changed-by-boundary-fluxes", {"eq": i, "I0": I0[i], "I1": I1[i], "expected": exp}, cls="solve:open-boundaries")
+    ctx.nontrivial("open", iname, cfl, nstep, s.desc())
